@@ -27,7 +27,9 @@ GridOf(id, N) ==
     [] id = "fun"  -> FunctionG(CASE N = 1 -> <<Zero, One>>
                                   [] N = 2 -> <<Zero, Q(1, 4), One>>
                                   [] N = 3 -> <<Zero, Q(1, 4), Q(1, 2), One>>
-                                  [] N = 4 -> <<Zero, Q(1, 8), Q(1, 4), Q(1, 2), One>>)
+                                  [] N = 4 -> <<Zero, Q(1, 8), Q(1, 4), Q(1, 2), One>>
+                                  [] N = 5 -> <<Zero, Q(1, 8), Q(1, 4), Q(1, 2), Q(3, 4), One>>
+                                  [] N = 6 -> <<Zero, Q(1, 8), Q(1, 4), Q(3, 8), Q(1, 2), Q(3, 4), One>>)
 \* horizon length that keeps the integrator steps at small dyadic values
 TBase(id, N) ==
   CASE id = "uni" -> R(N)
@@ -347,7 +349,7 @@ Space ==
     [] Family = "C04" ->
          {s \in [rhs : {"R2", "R3"}, meth : {"MS", "SS", "DC"}, intg : {"rk", "radau2"}, N : 1..MaxN, M : 1..MaxM,
                  grid : {"uni", "fun"}, hz : {"num", "fT"},
-                 seed : {Seed}, cons : ConSets \cup {<<"k8", "kR">>, <<"k7", "kS", "k2">>}, obj : {<<>>}] :
+                 seed : {Seed}, cons : ConSets \cup {<<"k8", "kR">>, <<"k7", "kS", "k2">>, <<"kV">>, <<"kV", "k6">>}, obj : {<<>>}] :
               /\ Wellformed(s) /\ (s.meth = "DC" <=> s.intg = "radau2")
               /\ (s.meth # "DC" => \A i \in 1..Len(s.cons) : s.cons[i] \notin {"kR", "kS"})}
     [] Family = "C05" ->
@@ -356,9 +358,9 @@ Space ==
                  seed : {Seed}, cons : {<<>>}, obj : ObjSets] : Wellformed(s)}
 
 SpaceG ==
-  {s \in [meth : {"MS", "SS"}, N : 1..MaxN, M : 1..2, grid : {"uni", "geo", "geoL", "fun", "free"},
+  {s \in [meth : {"MS", "SS"}, N : 1..(IF Thorough THEN 6 ELSE 3), M : 1..(IF Thorough THEN 4 ELSE 2), grid : {"uni", "geo", "geoL", "fun", "free"},
            lt0 : BOOLEAN, lT : BOOLEAN, bnd : {"none", "minlo", "minhi", "maxhi", "maxlo"},
-           hz : {"num", "fT", "fb"}, pert : 0..(2 * MaxN), seed : {Seed}, cons : {<<>>}, obj : {<<>>}] :
+           hz : {"num", "fT", "fb"}, pert : 0..12, seed : {Seed}, cons : {<<>>}, obj : {<<>>}] :
        /\ (s.grid \in {"fun", "free"} => ~s.lt0 /\ ~s.lT)      \* FunctionGrid cannot be localized; FreeGrid is localized by construction
        /\ s.pert <= NGridVars(s)
        /\ (s.bnd # "none" => s.hz # "num" \/ s.grid = "free")    \* bounds need a variable to act on
